@@ -819,6 +819,24 @@ Example C12_alloc_repaired_example :
   alloc_select_x arepaired (QNamed 1) [] w_tie3 2 = inl [TieR [1; 2; 3]%positive; TieR [1; 2; 3]%positive].
 Proof. vm_compute. repeat split; reflexivity. Qed.
 
+(* ---- the repairs change no answer the pinned code gave (every set of repairs [rp]): score voting by mean / low median,
+   majority judgment with either rule - wherever the pinned evaluator answered, the repaired one returns the same list.
+   (The sum of a candidate whose scores the truncation wiped out was 0 and is now the sum of its middle scores: the one
+   answer that changes, C11_scale_score_truncation_sum_capped_refuted.) *)
+Theorem C12_score_family_conservative : forall rp plus cf votes n r, profile_ok votes -> 1 <= n ->
+  (sc_fn cf <> FSum -> score_voting cf votes n = inl r -> score_voting_x rp cf votes n = inl r) /\
+  (majority_judgment plus cf votes n = inl r -> majority_judgment_x rp plus cf votes n = inl r).
+Proof.
+  intros rp plus cf votes n r Hv Hn. split.
+  - intros Hfn. exact (score_voting_x_conservative rp cf votes n r Hv Hfn).
+  - exact (majority_judgment_x_conservative rp plus cf votes n r Hv Hn).
+Qed.
+
+(* the tie-break itself: wherever the pinned loop does not end in StatisticsError the repaired loop does the same *)
+Theorem C12_mj_tiebreak_conservative : forall rp fuel sub n, NoDup (map fst sub) -> Forall cs_ok sub -> 1 <= n <= length sub ->
+  mj_default fuel sub n <> inr SE_stats -> mj_default_x rp fuel sub n = mj_default fuel sub n.
+Proof. intros rp fuel sub n Hnd Hok Hn. exact (mj_default_x_conservative rp fuel sub n (conj Hnd Hok) Hn). Qed.
+
 Print Assumptions C12_combinations_complete.
 Print Assumptions C12_combinations_sound.
 Print Assumptions C12_pav_optimal.
@@ -884,3 +902,5 @@ Print Assumptions C12_alloc_strongest_first_repaired.
 Print Assumptions C12_alloc_round_repaired.
 Print Assumptions C12_alloc_answers.
 Print Assumptions C12_alloc_conservative.
+Print Assumptions C12_score_family_conservative.
+Print Assumptions C12_mj_tiebreak_conservative.
